@@ -25,6 +25,7 @@
 #include <signal.h>
 #include <fcntl.h>
 #include <sys/wait.h>
+#include <time.h>
 #include "echse.h"
 #include "evical.h"
 #include "evstrm.h"
@@ -32,6 +33,19 @@
 #include "dt-strpf.h"
 #include "nummapstr.h"
 #include "strlst.h"
+
+/* the one clock the library reads (DTSTAMP of what it writes): pinned, so that
+ * one job is one exactly repeatable output */
+time_t
+time(time_t *t)
+{
+	const time_t r = (time_t)1791000000;
+
+	if (t != NULL) {
+		*t = r;
+	}
+	return r;
+}
 
 static int
 hexval(int c)
